@@ -48,7 +48,7 @@ class CreateDatabase(ASTNode):
             engine_str = f'ENGINE = {Constant(self.engine).to_string()} '
 
         parameters_str = ''
-        if self.parameters:
+        if self.parameters is not None:
             parameters_str = f', PARAMETERS = {kw_value_to_string(self.parameters)}'
         out_str = f'CREATE{replace_str} DATABASE {"IF NOT EXISTS " if self.if_not_exists else ""}{self.name.to_string()} {engine_str}{parameters_str}'
         return out_str
